@@ -393,40 +393,31 @@ fn run_single_program(
                 }
             }
 
-            let mut stdout_redirected = false;
-            let mut stderr_redirected = false;
+            // the last stage of a captured pipeline writes into the capture
+            // pipes; its redirections are applied on top of that
+            if idx_cmd == pipes_count && options.capture_output {
+                if let Some(fds) = fds_capture_stdout {
+                    libs::close(fds.0);
+                    libs::dup2(fds.1, 1);
+                    libs::close(fds.1);
+                }
+                if let Some(fds) = fds_capture_stderr {
+                    libs::close(fds.0);
+                    libs::dup2(fds.1, 2);
+                    libs::close(fds.1);
+                }
+            }
+
+            // redirections are applied from left to right; N>&M makes N a
+            // copy of what M refers to at that point
             for item in &cmd.redirects_to {
                 let from_ = &item.0;
                 let op_ = &item.1;
                 let to_ = &item.2;
                 if to_ == "&1" && from_ == "2" {
-                    if idx_cmd < pipes_count {
-                        libs::dup2(1, 2);
-                    } else if !options.capture_output {
-                        let fd = libs::dup(1);
-                        if fd == -1 {
-                            println_stderr!("cicada: dup error");
-                            process::exit(1);
-                        }
-                        libs::dup2(fd, 2);
-                        libs::close(fd);
-                    } else {
-                        // note: capture output with redirections does not
-                        // make much sense
-                    }
+                    libs::dup2(1, 2);
                 } else if to_ == "&2" && from_ == "1" {
-                    if idx_cmd < pipes_count || !options.capture_output {
-                        let fd = libs::dup(2);
-                        if fd == -1 {
-                            println_stderr!("cicada: dup error");
-                            process::exit(1);
-                        }
-                        libs::dup2(fd, 1);
-                        libs::close(fd);
-                    } else {
-                        // note: capture output with redirections does not
-                        // make much sense
-                    }
+                    libs::dup2(2, 1);
                 } else {
                     let append = op_ == ">>";
                     match tools::create_raw_fd_from_file(to_, append) {
@@ -438,10 +429,8 @@ fn run_single_program(
 
                             if from_ == "1" {
                                 libs::dup2(fd, 1);
-                                stdout_redirected = true;
                             } else {
                                 libs::dup2(fd, 2);
-                                stderr_redirected = true;
                             }
                         }
                         Err(e) => {
@@ -449,24 +438,6 @@ fn run_single_program(
                             process::exit(1);
                         }
                     }
-                }
-            }
-
-            // capture output of last process if needed.
-            if idx_cmd == pipes_count && options.capture_output {
-                if let Some(fds) = fds_capture_stdout {
-                    libs::close(fds.0);
-                    if !stdout_redirected {
-                        libs::dup2(fds.1, 1);
-                    }
-                    libs::close(fds.1);
-                }
-                if let Some(fds) = fds_capture_stderr {
-                    libs::close(fds.0);
-                    if !stderr_redirected {
-                        libs::dup2(fds.1, 2);
-                    }
-                    libs::close(fds.1);
                 }
             }
 
